@@ -66,6 +66,11 @@ CLAIMED = {
         technique="TLA+ spec ClientMux with fault, timeout and cancel actions checked by TLC (safety + liveness, must-violate config for the shutdown order); fault / timeout / cancel scenarios injected into the three real clients by a scripted server and trace-validated by TLC",
         text="TLC checks NoResidue, WaiterHasFuture and (with fairness) that every waiting call finishes once the connection fails, for faults placed at every step; reversing the shut-writer / drain order of fail_all_pending violates WaiterHasFuture. The real clients face close, reset, malformed frame, inconsistent length, u64::MAX length and truncated response with 0, 1, 3 and 8 (16) calls in flight and every split of requests read / responses sent before the fault; per-call timeouts with late and racing responses; cancellation of async/WebSocket calls. Every call runs under a watchdog; TLC accepts a run only if each result is explainable, the pending map is empty at the end (hook accessor), a later call fails (after a fault) or succeeds (after timeouts/cancels), and a WebSocket subscriber saw end-of-stream.",
         note="Trusts TLC, the scripted server and the add-only verif_pending_len() accessor. A call still running 10 s after the scenario is taken as hung."),
+    "C03": dict(
+        category="model_checking", design_ref="DESIGN.md §5 C03",
+        technique="TLA+ spec ServerConn (reader, inline and off-reader dispatch, outbound FIFO) checked by TLC incl. liveness; pipelined raw-byte request sequences against the four real dispatch paths trace-validated by TLC (response count, codes, echo, invocation, FIFO, cross-transport equality)",
+        text="TLC checks the connection model for request mixes under caps 1-3 and unlimited: exactly one response per request and none per notify, handler invoked once iff dispatched, inline FIFO, and that every request is eventually answered. Pipelined sequences of 64 raw requests covering all ordered pairs of 26 request classes x notify flag (valid/invalid version, query formats, non-UTF-8 query, unknown path, every handler kind, body formats with good and bad bodies) are sent to the blocking TCP server, the async TCP server and the WebSocket server (inline and off-reader routes); the trace specification judges response counts, error codes, query echo, handler invocations, inline ordering and equality of the response fields across the four paths.",
+        note="Trusts TLC, the raw clients and the request-class table. Error-response bodies are free text and not compared."),
 }
 
 NOT_YET = {}
